@@ -16,6 +16,7 @@
 #include <fcntl.h>
 #include <signal.h>
 #include <sys/mman.h>
+#include <sys/prctl.h>
 #include <sys/resource.h>
 #include <sys/wait.h>
 #include <unistd.h>
@@ -854,6 +855,8 @@ bool adopt(Shadow& sh) {
 // Replays a history on scrubbed storage without oracles (every prefix was
 // checked when it was first explored).
 volatile sig_atomic_t g_cur_step = 0;
+// 0 while an operation of the alphabet runs, 1 while the observers run.
+volatile sig_atomic_t g_abort_phase = 0;
 
 void replay_real(const std::uint16_t* h, std::size_t n, Shadow& sh, Ctx& ctx) {
   sh = Shadow{};
@@ -1021,6 +1024,12 @@ void check_span_slot(int i, const SS& x, Ctx& ctx) {
 }
 
 void check_state(const Shadow& sh, Ctx& ctx) {
+  // First directly after the operation, then again after the observers below
+  // have created and destroyed their own temporaries.
+  const std::uint64_t before = ctx.total;
+  check_registry(sh, nullptr, ctx, "registry");
+  const bool registry_ok = ctx.total == before;
+  g_abort_phase = 1;
   for (int i = 0; i < gP; ++i)
     if (sh.p[i].st != 0) check_ptr_slot(i, sh.p[i], ctx);
   if (!ctx.value_bad)
@@ -1030,7 +1039,9 @@ void check_state(const Shadow& sh, Ctx& ctx) {
           check_ptr_pair(i, j, sh.p[i], sh.p[j], ctx);
   for (int i = 0; i < gS; ++i)
     if (sh.s[i].st != 0) check_span_slot(i, sh.s[i], ctx);
-  check_registry(sh, nullptr, ctx, "registry");
+  if (registry_ok)
+    check_registry(sh, nullptr, ctx, "registry-after-observers");
+  g_abort_phase = 0;
 }
 
 // ---------------------------------------------------------------------------
@@ -1329,6 +1340,7 @@ struct AbortRec {
   std::uint32_t hlen;
   std::int32_t op;
   std::uint32_t step;
+  std::uint32_t phase;
   std::uint16_t hist[HMAX];
 };
 
@@ -1338,6 +1350,7 @@ extern "C" void on_sigabrt(int) {
   rec.hlen = static_cast<std::uint32_t>(g_abort_hlen);
   rec.op = static_cast<std::int32_t>(g_abort_op);
   rec.step = static_cast<std::uint32_t>(g_cur_step);
+  rec.phase = static_cast<std::uint32_t>(g_abort_phase);
   for (std::uint32_t k = 0; k < rec.hlen && k < HMAX; ++k)
     rec.hist[k] = g_abort_hist[k];
   const char tag = 'A';
@@ -1542,6 +1555,7 @@ void worker_replay(Rd& in, Buf& out) {
 }
 
 [[noreturn]] void worker_main(int in_fd, int out_fd) {
+  prctl(PR_SET_PDEATHSIG, SIGKILL);  // never outlive the master
   g_abort_fd = out_fd;
   struct sigaction sa;
   std::memset(&sa, 0, sizeof sa);
@@ -1736,10 +1750,14 @@ void abort_violation(const AbortRec& rec, Totals& t) {
   const std::string subj =
       v.hist.empty() ? std::string("startup")
                      : std::string(kind_name[g_ops[v.hist.back()].k]);
-  v.sig = "C17/" + subj + "/library-abort";
-  v.what =
-      "the process aborted (library assertion) while executing the last "
-      "operation of the history";
+  v.sig = "C17/" + subj +
+          (rec.phase == 0 ? "/library-abort" : "/library-abort-in-observers");
+  v.what = rec.phase == 0
+               ? "the process aborted (library assertion) while executing the "
+                 "last operation of the history"
+               : "the process aborted (library assertion) while reading the "
+                 "wrappers (get, *, [], comparisons, difference, span "
+                 "iteration) after the last operation of the history";
   v.detail = "SIGABRT inside a wrapper operation of a legal history";
   ++t.viol_total;
   if (t.viols.size() < VIOL_CAP) t.viols.push_back(std::move(v));
@@ -1849,11 +1867,17 @@ int run_bfs(const Options& opt) {
       send_cmd(g_workers[w], 'E', b);
     }
     std::vector<std::uint32_t> next;
+    // If a worker aborts inside the library, the level is cut: so that nothing
+    // emitted depends on the partition, only the completed levels are counted
+    // and the first abort in frontier order is reported.
+    const Totals level_start = tot;
+    const std::size_t nodes_at_level_start = nodes.size();
+    AbortRec first_abort;
     for (std::size_t w = 0; w < W; ++w) {
       std::vector<std::uint8_t> payload;
       AbortRec rec;
       if (!recv_result(g_workers[w], payload, rec)) {
-        abort_violation(rec, tot);
+        if (!aborted) first_abort = rec;
         aborted = true;
         continue;  // still drain the other workers of this level
       }
@@ -1879,6 +1903,11 @@ int run_bfs(const Options& opt) {
       }
       take_counters(rd, tot);
       take_viols(rd, tot);
+    }
+    if (aborted) {
+      tot = level_start;
+      nodes.resize(nodes_at_level_start);
+      abort_violation(first_abort, tot);
     }
     frontier.swap(next);
   }
